@@ -5,7 +5,7 @@
 From Orda.Model Require Import Base Time Ops Datatype Server Wire.
 Open Scope N_scope.
 
-Inductive fault := FNone | FDupRequest | FDropResponse.
+Inductive fault := FNone | FDupRequest | FDropResponse | FDb (pf : pfault).   (* FDb: a storage command fails *)
 
 Section Net.
   Variable St call ret J : Type.
@@ -27,7 +27,7 @@ Section Net.
   (* one push-pull exchange of datatype w of client (col, cuid) *)
   Definition exchange (db : sdb) (col cuid : str) (w : wdty) (f : fault) : xres :=
     let req := mkpack St call J k_type w in
-    let '(db1, r1) := process_pushpull db col cuid [req] in
+    let '(db1, r1) := process_pushpull_f (match f with FDb pf => Some pf | _ => None end) db col cuid [req] in
     match r1 with
     | inr e => XRpc db1 e
     | inl l1 =>
